@@ -333,8 +333,15 @@ Proof.
 Qed.
 
 (* ---- composite steps --------------------------------------------------------------------- *)
+(* logs and access list: the part of the state the object machinery never touches *)
+Definition aux (a : astate) : list (N * N * Z) * Z * gmap addr unit * gmap (addr * key) unit :=
+  (a_logs a, a_logsize a, a_al_addrs a, a_al_slots a).
+Definition saux (c : core) : list (N * N * Z) * Z * gmap addr unit * gmap (addr * key) unit :=
+  (logs c, logsize c, al_addrs c, al_slots c).
+
 Definition same_frame (a a1 : astate) : Prop :=
-  a_pers a1 = a_pers a /\ a_revs a1 = a_revs a /\ a_nextid a1 = a_nextid a /\ a_refund a1 = a_refund a.
+  a_pers a1 = a_pers a /\ a_revs a1 = a_revs a /\ a_nextid a1 = a_nextid a /\ a_refund a1 = a_refund a /\
+  aux a1 = aux a.
 
 Lemma load_none_pbal p x : load p x = None -> pbal p x = 0.
 Proof.
@@ -421,6 +428,12 @@ Definition sundo (e : entry) (c : core) : core :=
   | ESuicide x prev pb => with_accts c (alter (fun a => with_suic (with_bal a pb) prev) x (accts c))
   | ECode x ph _ => with_accts c (alter (fun a => with_code a ph) x (accts c))
   | ERefund prev => with_refund c prev
+  | ELog => {| accts := accts c; refund := refund c; logs := removelast (logs c); logsize := logsize c - 1;
+               al_addrs := al_addrs c; al_slots := al_slots c |}
+  | EAlAddr x => {| accts := accts c; refund := refund c; logs := logs c; logsize := logsize c;
+                    al_addrs := delete x (al_addrs c); al_slots := al_slots c |}
+  | EAlSlot x k => {| accts := accts c; refund := refund c; logs := logs c; logsize := logsize c;
+                      al_addrs := al_addrs c; al_slots := delete (x, k) (al_slots c) |}
   | _ => c
   end.
 Definition sundo_list (l : list entry) (c : core) : core := fold_left (fun c e => sundo e c) l c.
@@ -430,7 +443,7 @@ Definition entry_ok (p : pers) (e : entry) : Prop :=
   match e with
   | ECreate x => load p x = None
   | ECode _ ph pc => pc = ph
-  | EReset _ _ | ELog | EAlAddr _ | EAlSlot _ _ => False
+  | EReset _ _ => False
   | _ => True
   end.
 
@@ -497,7 +510,8 @@ Record Inv (a : astate) (s : sstate) : Prop := {
   i_wo : WO a; i_jok : JOK a; i_nr : NR (a_pers a); i_crel : crel a (cur s);
   i_id : a_nextid a = nextid s; i_sr : SR a s;
   i_ent : Forall (entry_ok (a_pers a)) (a_entries a);
-  i_ne : NE (a_pers a) }.
+  i_ne : NE (a_pers a);
+  i_aux : aux a = saux (cur s) }.
 
 Lemma sundo_list_app l1 l2 c : sundo_list (l1 ++ l2) c = sundo_list l2 (sundo_list l1 c).
 Proof. unfold sundo_list. apply fold_left_app. Qed.
@@ -568,7 +582,7 @@ Lemma fin_rel a s x a1 a' new es2 ac ac' o' :
     with_accts (cur s) (<[x := ac]> (accts (cur s))) ->
   Inv a' (with_cur s (with_accts (cur s) (<[x := ac']> (accts (cur s))))).
 Proof.
-  intros HI Hoth He1 (Hp1 & Hr1 & Hn1 & Hf1) Hcase HW HJ Hl He2 (Hp2 & Hr2 & Hn2 & Hf2) Har Hok Hundo.
+  intros HI Hoth He1 (Hp1 & Hr1 & Hn1 & Hf1 & Hx1) Hcase HW HJ Hl He2 (Hp2 & Hr2 & Hn2 & Hf2 & Hx2) Har Hok Hundo.
   assert (a_pers a' = a_pers a) as Hp by congruence.
   split.
   - exact HW.
@@ -590,6 +604,7 @@ Proof.
     + destruct Hcase as [[-> _]|(-> & _ & Hld)]; [constructor|]. constructor; [exact Hld|constructor].
     + exact Hok.
   - rewrite Hp. exact (i_ne _ _ HI).
+  - rewrite Hx2, Hx1. exact (i_aux _ _ HI).
 Qed.
 
 Lemma so_spec a x o : WO a -> JOK a ->
@@ -617,10 +632,10 @@ Qed.
 
 Lemma inv_same_spec a a' s : Inv a s -> WO a' -> JOK a' ->
   a_pers a' = a_pers a -> a_refund a' = a_refund a -> a_nextid a' = a_nextid a ->
-  a_revs a' = a_revs a -> a_entries a' = a_entries a ->
+  a_revs a' = a_revs a -> a_entries a' = a_entries a -> aux a' = aux a ->
   (forall y, orel (a_pers a) y (look a' y) (accts (cur s) !! y)) -> Inv a' s.
 Proof.
-  intros HI HW HJ Hp Hf Hn Hr He Hl. split.
+  intros HI HW HJ Hp Hf Hn Hr He Hx Hl. split.
   - exact HW.
   - exact HJ.
   - rewrite Hp. exact (i_nr _ _ HI).
@@ -629,6 +644,7 @@ Proof.
   - destruct (i_sr _ _ HI) as [HF Hm]. split; [|rewrite Hr; exact Hm]. rewrite Hr, He. exact HF.
   - rewrite Hp, He. exact (i_ent _ _ HI).
   - rewrite Hp. exact (i_ne _ _ HI).
+  - rewrite Hx. exact (i_aux _ _ HI).
 Qed.
 
 (* reads *)
@@ -818,6 +834,7 @@ Proof.
     simpl. unfold sundo_list; simpl. rewrite (proj2 (i_crel _ _ HI)). apply with_refund_undo.
   - apply Forall_app. split; [exact (i_ent _ _ HI)|repeat constructor].
   - exact (i_ne _ _ HI).
+  - exact (i_aux _ _ HI).
 Qed.
 
 Lemma sim_AddRefund a s g : Inv a s -> sim a s (AddRefund g).
@@ -860,7 +877,7 @@ Proof.
       { destruct committed.
         - destruct (obj_committed_spec (a_pers a) x o k HO) as (ol & om & E1 & E2). exists ol, om, (pslot (a_pers a) x k). split; [exact E1|]. split; [exact E2|apply Hcm].
         - destruct (obj_getstate_spec (a_pers a) x o k HD HO) as (ol & om & E1 & E2). exists ol, om, (oget (a_pers a) x o k). split; [exact E1|]. split; [exact E2|apply Hst]. }
-      destruct (so_spec a1 x (set_origin o ol om) HW1 (i_jok _ _ HI)) as (a' & Hs & HW' & HJ' & Hl' & He' & (Hp' & Hr' & Hn' & Hf')).
+      destruct (so_spec a1 x (set_origin o ol om) HW1 (i_jok _ _ HI)) as (a' & Hs & HW' & HJ' & Hl' & He' & (Hp' & Hr' & Hn' & Hf' & Hx')).
       exists (OZ v), a'. split; [|split; [subst v; reflexivity|]].
       + destruct committed; simpl; rewrite Hg; simpl; rewrite Hgs; simpl; rewrite Hs; reflexivity.
       + apply (inv_same_spec a a' s HI HW' HJ'); try assumption.
@@ -902,12 +919,13 @@ Proof.
     assert (WO a3) as HW3 by exact HW2.
     destruct (so_spec a3 x o2 HW3 HJ3) as (a4 & Hs4 & HW4 & HJ4 & Hl4 & He4 & Hf4). rewrite Hs4. simpl.
     eexists _, _, _. split; [reflexivity|]. split; [reflexivity|].
-    destruct Hf2 as (Hp2 & Hr2 & Hn2 & Hrf2). destruct Hf4 as (Hp4 & Hr4 & Hn4 & Hrf4).
+    destruct Hf2 as (Hp2 & Hr2 & Hn2 & Hrf2 & Hx2). destruct Hf4 as (Hp4 & Hr4 & Hn4 & Hrf4 & Hx4).
     eapply (fin_rel a s x a1 a4 new [EStorage x k (oget (a_pers a) x o k)] ac _ o2); eauto.
     + intros y. rewrite Hl4. destruct (decide (x = y)) as [<-|Hne]; [reflexivity|].
       change (look a3 y) with (look a2 y). rewrite Hl2. rewrite decide_False by done. reflexivity.
     + rewrite He4. simpl. rewrite He2. reflexivity.
-    + unfold a3 in *. simpl in *. repeat split; congruence.
+    + assert (aux a4 = aux a1) as Hx41 by (rewrite Hx4; exact Hx2).
+      unfold a3 in *. simpl in *. unfold same_frame. repeat split; congruence.
     + destruct Har1 as (A & B & C & D & E & F & G & H & I).
       unfold arel. simpl. refine (conj A (conj B (conj C (conj D (conj _ (conj F (conj HD2 (conj H _)))))))).
       * intros k'. rewrite Hget2. rewrite cset_get by exact I. destruct (decide (k = k')); [reflexivity|apply E].
@@ -933,7 +951,7 @@ Proof.
       as (a4 & a5 & Hj5 & Hs5 & HW5 & HJ5 & Hl5 & He5 & Hf5).
     rewrite Hj5. simpl. rewrite Hs5. simpl.
     eexists _, _, _. split; [reflexivity|]. split; [reflexivity|].
-    destruct Hf3 as (Hp3 & Hr3 & Hn3 & Hrf3). destruct Hf5 as (Hp5 & Hr5 & Hn5 & Hrf5).
+    destruct Hf3 as (Hp3 & Hr3 & Hn3 & Hrf3 & Hx3). destruct Hf5 as (Hp5 & Hr5 & Hn5 & Hrf5 & Hx5).
     eapply (fin_rel a s x a1 a5 [] [ESuicide x (o_suic o) (o_bal o); EBalance x (o_bal o)] ac
               (with_suic (with_bal ac 0) true) (set_bal (set_suic o true) 0) HI).
     + intros y _. apply Hl1.
@@ -983,6 +1001,7 @@ Proof.
            inversion H1; subst r1. simpl. lia.
   - exact (i_ent _ _ HI).
   - exact (i_ne _ _ HI).
+  - exact (i_aux _ _ HI).
 Qed.
 
 (* ---- RevertToSnapshot -------------------------------------------------------------------- *)
@@ -1101,8 +1120,77 @@ Proof.
     * subst pc. apply arel_code. exact Hx.
   - (* ERefund *) inversion Hre; subst a'. split; [exact HW|]. split; [|repeat split].
     split; [exact (proj1 HC)|reflexivity].
+  - (* ELog *) inversion Hre; subst a'. split; [exact HW|]. split; [|repeat split].
+    split; [exact (proj1 HC)|exact (proj2 HC)].
   - (* ETouch *) inversion Hre; subst a'. split; [exact HW|]. split; [exact HC|repeat split].
+  - (* EAlAddr *) inversion Hre; subst a'. split; [exact HW|]. split; [|repeat split].
+    split; [exact (proj1 HC)|exact (proj2 HC)].
+  - (* EAlSlot *) inversion Hre; subst a'. split; [exact HW|]. split; [|repeat split].
+    split; [exact (proj1 HC)|exact (proj2 HC)].
 Qed.
+
+(* logs and access list under revert *)
+Definition auxundo (e : entry) (t : list (N * N * Z) * Z * gmap addr unit * gmap (addr * key) unit) :=
+  let '(lg, sz, aa, sl) := t in
+  match e with
+  | ELog => (removelast lg, sz - 1, aa, sl)
+  | EAlAddr x => (lg, sz, delete x aa, sl)
+  | EAlSlot x k => (lg, sz, aa, delete (x, k) sl)
+  | _ => t
+  end.
+Lemma sundo_aux e c : saux (sundo e c) = auxundo e (saux c).
+Proof. destruct e; reflexivity. Qed.
+
+Lemma set_obj_shape a x o a' : set_obj a x o = Some a' -> exists l m, a' = w_objs a l m.
+Proof.
+  unfold set_obj. destruct (a_oidx a !! x); [destruct (a_objs a !! _); simpl|]; intros [= <-]; eauto.
+Qed.
+Lemma get_obj_shape a x a1 so : get_obj a x = Some (a1, so) -> exists l m, a1 = w_objs a l m.
+Proof.
+  unfold get_obj. destruct (a_oidx a !! x).
+  - destruct (a_objs a !! _); simpl; intros [= <- <-]. exists (a_objs a), (a_oidx a). destruct a; reflexivity.
+  - destruct (load (a_pers a) x).
+    + destruct (set_obj a x o) as [a2|] eqn:Hs; simpl; [|done]. intros [= <- <-]. eapply set_obj_shape; eauto.
+    + intros [= <- <-]. exists (a_objs a), (a_oidx a). destruct a; reflexivity.
+Qed.
+Lemma live_obj_aux a x a1 o : live_obj a x = Some (a1, o) -> aux a1 = aux a.
+Proof.
+  unfold live_obj. destruct (get_obj a x) as [[a2 so]|] eqn:Hg; simpl; [|done].
+  destruct so; simpl; [|done]. intros [= <- <-]. destruct (get_obj_shape _ _ _ _ Hg) as (l & m & ->). reflexivity.
+Qed.
+Lemma set_in_revert_aux a x o b a' : so_set_balance_in_revert a x o b = Some a' -> aux a' = aux a.
+Proof.
+  unfold so_set_balance_in_revert. destruct (add_dirty a x) as [a2|] eqn:Hd; simpl; [|done].
+  destruct (add_dirty_shape _ _ _ Hd) as (dl & dm & ->). intros Hs.
+  destruct (set_obj_shape _ _ _ _ Hs) as (l & m & ->). reflexivity.
+Qed.
+
+Lemma revert_entry_aux a e a' : revert_entry a e = Some a' -> aux a' = auxundo e (aux a).
+Proof.
+  destruct e as [x|x prev|x prev pb|x prev|x prev|x k prev|x ph pc|prev| |x|x|x k]; simpl; intros Hre.
+  - inversion Hre; subst. unfold remove_obj. destruct (a_oidx a !! x); [destruct (decide _)|]; reflexivity.
+  - destruct (set_obj_shape _ _ _ _ Hre) as (l & m & ->). reflexivity.
+  - destruct (get_obj a x) as [[a1 so]|] eqn:Hg; simpl in Hre; [|done].
+    destruct (get_obj_shape _ _ _ _ Hg) as (l & m & ->). destruct so as [o|].
+    + destruct (set_obj _ x (set_suic o prev)) as [a2|] eqn:Hs; simpl in Hre; [|done].
+      destruct (set_obj_shape _ _ _ _ Hs) as (l2 & m2 & ->). rewrite (set_in_revert_aux _ _ _ _ _ Hre). reflexivity.
+    + inversion Hre; subst. reflexivity.
+  - destruct (live_obj a x) as [[a1 o]|] eqn:Hl; simpl in Hre; [|done].
+    rewrite (set_in_revert_aux _ _ _ _ _ Hre). exact (live_obj_aux _ _ _ _ Hl).
+  - destruct (live_obj a x) as [[a1 o]|] eqn:Hl; simpl in Hre; [|done].
+    destruct (set_obj_shape _ _ _ _ Hre) as (l & m & ->). exact (live_obj_aux _ _ _ _ Hl).
+  - destruct (live_obj a x) as [[a1 o]|] eqn:Hl; simpl in Hre; [|done].
+    destruct (obj_setstate o k prev); simpl in Hre; [|done].
+    destruct (set_obj_shape _ _ _ _ Hre) as (l & m & ->). exact (live_obj_aux _ _ _ _ Hl).
+  - destruct (live_obj a x) as [[a1 o]|] eqn:Hl; simpl in Hre; [|done].
+    destruct (set_obj_shape _ _ _ _ Hre) as (l & m & ->). exact (live_obj_aux _ _ _ _ Hl).
+  - inversion Hre; subst. reflexivity.
+  - inversion Hre; subst. reflexivity.
+  - inversion Hre; subst. reflexivity.
+  - inversion Hre; subst. reflexivity.
+  - inversion Hre; subst. reflexivity.
+Qed.
+
 
 Lemma dirties_step_frame a1 x a2 :
   (a' ← sub_dirty a1 x; n ← get_dirty a' x; if n =? 0 then delete_dirty a' x else Some a') = Some a2 ->
@@ -1138,6 +1226,25 @@ Proof.
     + simpl. rewrite Hp1. exact HoL.
     + exact Hrl.
     + split; [exact HW'|]. split; [exact HC'|]. simpl in *. repeat split; congruence.
+Qed.
+
+Lemma revert_list_aux L : forall a a', revert_list a L = Some a' ->
+  aux a' = fold_left (fun t e => auxundo e t) L (aux a).
+Proof.
+  induction L as [|e L IH]; intros a a' Hr; simpl in Hr; [inversion Hr; reflexivity|].
+  destruct (revert_entry a e) as [a1|] eqn:He; simpl in Hr; [|done].
+  assert (exists a2, match dirtied e with
+                     | Some x => a'0 ← sub_dirty a1 x; n ← get_dirty a'0 x; if n =? 0 then delete_dirty a'0 x else Some a'0
+                     | None => Some a1 end = Some a2 /\ revert_list a2 L = Some a') as (a2 & Hd & Hrl).
+  { destruct (match dirtied e with Some _ => _ | None => _ end) as [a2|]; simpl in Hr; [|done]. eauto. }
+  assert (aux a2 = aux a1) as Hx.
+  { destruct (dirtied e) as [x|]; [destruct (dirties_step_frame _ _ _ Hd) as (l & m & ->); reflexivity|].
+    inversion Hd; reflexivity. }
+  simpl. rewrite (IH _ _ Hrl), Hx, (revert_entry_aux _ _ _ He). reflexivity.
+Qed.
+Lemma sundo_list_aux L : forall c, saux (sundo_list L c) = fold_left (fun t e => auxundo e t) L (saux c).
+Proof.
+  induction L as [|e L IH]; intros c; [reflexivity|]. unfold sundo_list in *. simpl. rewrite IH, sundo_aux. reflexivity.
 Qed.
 
 Lemma find_agree id : forall (revs : list (Z * nat)) (snaps : list (Z * core)) i,
@@ -1209,6 +1316,7 @@ Proof.
       rewrite lookup_take in H1 by lia. rewrite lookup_take in H2 by lia. eapply Hm; eauto.
   - rewrite Hp1. apply Forall_take. exact (i_ent _ _ HI).
   - rewrite Hp1. exact (i_ne _ _ HI).
+  - rewrite Hc', sundo_list_aux, <- (i_aux _ _ HI). exact (revert_list_aux _ _ _ Hrl).
 Qed.
 
 (* ---- Finalise ---------------------------------------------------------------------------- *)
@@ -1559,9 +1667,10 @@ Lemma inv_finalise a s (block : bool) c' nid :
   Inv a s -> trig_residue a Finalise = false -> fin_okb a = true ->
   accts c' = finalise_accts (accts (cur s)) -> refund c' = 0 ->
   nid = (if block then 0 else nextid s) ->
+  saux c' = ([], if block then 0 else logsize (cur s), ∅, ∅) ->
   Inv (a_finalise a block) {| cur := c'; snaps := []; nextid := nid |}.
 Proof.
-  intros HI Htr Hfin Hacc Href Hnid.
+  intros HI Htr Hfin Hacc Href Hnid Haux.
   pose proof (fun x => fin_addr a s x HI Htr Hfin) as Hall. cbv zeta in Hall.
   split.
   - intros x i. simpl. rewrite lookup_empty. split; [done|]. intros [o Ho]. rewrite lookup_nil in Ho. done.
@@ -1573,6 +1682,8 @@ Proof.
   - split; [constructor|]. intros i j r1 r2 H. simpl in H. rewrite lookup_nil in H. done.
   - constructor.
   - intros x o Hl. exact (proj2 (proj2 (Hall x)) o Hl).
+  - simpl. rewrite Haux. unfold aux; simpl. pose proof (i_aux _ _ HI) as Hx. unfold aux, saux in Hx.
+    destruct block; [reflexivity|]. congruence.
 Qed.
 
 Lemma step_class_fin a o : step_ok a o = true -> (o = Finalise \/ o = BlockCommit) ->
@@ -1657,6 +1768,117 @@ Proof.
   - simpl. unfold with_accts; simpl. rewrite alter_insert. rewrite Ah, with_code_undo. reflexivity.
 Qed.
 
+(* logs and access list *)
+Lemma inv_aux a s a' c2 new :
+  Inv a s ->
+  a_pers a' = a_pers a -> a_objs a' = a_objs a -> a_oidx a' = a_oidx a -> a_dirties a' = a_dirties a ->
+  a_jidx a' = a_jidx a -> a_revs a' = a_revs a -> a_nextid a' = a_nextid a -> a_refund a' = a_refund a ->
+  a_entries a' = a_entries a ++ new -> Forall (entry_ok (a_pers a)) new ->
+  accts c2 = accts (cur s) -> refund c2 = refund (cur s) -> aux a' = saux c2 ->
+  sundo_list (rev new) c2 = cur s ->
+  Inv a' (with_cur s c2).
+Proof.
+  intros HI Hp Ho Hoi Hd Hj Hr Hn Hf He Hok Hac Hrf Hx Hu. split; simpl.
+  - unfold WO. rewrite Ho, Hoi. exact (i_wo _ _ HI).
+  - unfold JOK. rewrite Hd, Hj. exact (i_jok _ _ HI).
+  - rewrite Hp. exact (i_nr _ _ HI).
+  - split; [|rewrite Hf, Hrf; exact (proj2 (i_crel _ _ HI))]. intros y. rewrite Hp, Hac.
+    assert (look a' y = look a y) as -> by (unfold look; rewrite Hoi, Ho, Hp; reflexivity).
+    apply (proj1 (i_crel _ _ HI)).
+  - rewrite Hn. exact (i_id _ _ HI).
+  - apply (SR_extend a a' s c2 new Hr He Hu (i_sr _ _ HI)).
+  - rewrite Hp, He. apply Forall_app. split; [exact (i_ent _ _ HI)|exact Hok].
+  - rewrite Hp. exact (i_ne _ _ HI).
+  - exact Hx.
+Qed.
+
+Lemma aux_eqs a s : Inv a s ->
+  a_logs a = logs (cur s) /\ a_logsize a = logsize (cur s) /\ a_al_addrs a = al_addrs (cur s) /\ a_al_slots a = al_slots (cur s).
+Proof. intros HI. pose proof (i_aux _ _ HI) as Hx. unfold aux, saux in Hx. inversion Hx. done. Qed.
+
+Lemma core_eta c : {| accts := accts c; refund := refund c; logs := logs c; logsize := logsize c;
+                      al_addrs := al_addrs c; al_slots := al_slots c |} = c.
+Proof. destruct c; reflexivity. Qed.
+
+Lemma sim_AddLog a s x t : Inv a s -> simo a s (AddLog x t).
+Proof.
+  intros HI. destruct (aux_eqs a s HI) as (Hlg & Hsz & Haa & Hsl).
+  unfold simo. simpl. unfold j_append; simpl. eexists _, _, _. split; [reflexivity|]. split; [reflexivity|].
+  apply (inv_aux a s _ _ [ELog] HI); try reflexivity.
+  - repeat constructor.
+  - unfold aux, saux; simpl. rewrite Hlg, Hsz, Haa, Hsl. reflexivity.
+  - unfold sundo_list; simpl. rewrite removelast_last. replace (logsize (cur s) + 1 - 1) with (logsize (cur s)) by lia.
+    apply core_eta.
+Qed.
+Lemma sim_GetLogs a s : Inv a s -> simo a s GetLogs.
+Proof.
+  intros HI. destruct (aux_eqs a s HI) as (Hlg & _). exists (OList (flat_logs (a_logs a))), a, s.
+  split; [reflexivity|]. split; [simpl; rewrite Hlg; reflexivity|exact HI].
+Qed.
+Lemma sim_AlHasAddr a s x : Inv a s -> simo a s (AlHasAddr x).
+Proof.
+  intros HI. destruct (aux_eqs a s HI) as (_ & _ & Haa & _). eexists _, a, s.
+  split; [reflexivity|]. split; [simpl; rewrite Haa; reflexivity|exact HI].
+Qed.
+Lemma sim_AlHasSlot a s x k : Inv a s -> simo a s (AlHasSlot x k).
+Proof.
+  intros HI. destruct (aux_eqs a s HI) as (_ & _ & Haa & Hsl). eexists _, a, s.
+  split; [reflexivity|]. split; [simpl; rewrite Haa, Hsl; reflexivity|exact HI].
+Qed.
+
+Lemma insert_unit_id {K} `{Countable K} (m : gmap K unit) k u : m !! k = Some u -> <[k := tt]> m = m.
+Proof. intros Hk. destruct u. apply insert_id. exact Hk. Qed.
+
+Lemma sim_AlAddAddr a s x : Inv a s -> simo a s (AlAddAddr x).
+Proof.
+  intros HI. destruct (aux_eqs a s HI) as (Hlg & Hsz & Haa & Hsl).
+  unfold simo. simpl. destruct (a_al_addrs a !! x) as [u|] eqn:Hx.
+  - eexists _, _, _. split; [reflexivity|]. split; [reflexivity|].
+    apply (inv_aux a s a _ [] HI); try reflexivity.
+    + rewrite app_nil_r. reflexivity.
+    + constructor.
+    + unfold aux, saux; simpl. rewrite <- Haa, (insert_unit_id _ _ _ Hx), Hlg, Hsz, Hsl. reflexivity.
+    + unfold sundo_list; simpl. rewrite <- Haa, (insert_unit_id _ _ _ Hx), Haa. apply core_eta.
+  - unfold j_append; simpl. eexists _, _, _. split; [reflexivity|]. split; [reflexivity|].
+    apply (inv_aux a s _ _ [EAlAddr x] HI); try reflexivity.
+    + repeat constructor.
+    + unfold aux, saux; simpl. rewrite Hlg, Hsz, Haa, Hsl. reflexivity.
+    + unfold sundo_list; simpl. rewrite delete_insert by (rewrite <- Haa; exact Hx). apply core_eta.
+Qed.
+
+Lemma sim_AlAddSlot a s x k : Inv a s -> simo a s (AlAddSlot x k).
+Proof.
+  intros HI. destruct (aux_eqs a s HI) as (Hlg & Hsz & Haa & Hsl).
+  unfold simo. simpl. destruct (a_al_addrs a !! x) as [u|] eqn:Hx; simpl.
+  - destruct (a_al_slots a !! (x, k)) as [u2|] eqn:Hk.
+    + eexists _, _, _. split; [reflexivity|]. split; [reflexivity|].
+      apply (inv_aux a s a _ [] HI); try reflexivity.
+      * rewrite app_nil_r. reflexivity.
+      * constructor.
+      * unfold aux, saux; simpl. rewrite <- Haa, <- Hsl, (insert_unit_id _ _ _ Hx), (insert_unit_id _ _ _ Hk), Hlg, Hsz. reflexivity.
+      * unfold sundo_list; simpl. rewrite <- Haa, <- Hsl, (insert_unit_id _ _ _ Hx), (insert_unit_id _ _ _ Hk), Haa, Hsl. apply core_eta.
+    + unfold j_append; simpl. eexists _, _, _. split; [reflexivity|]. split; [reflexivity|].
+      apply (inv_aux a s _ _ [EAlSlot x k] HI); try reflexivity.
+      * repeat constructor.
+      * unfold aux, saux; simpl. rewrite <- Haa, (insert_unit_id _ _ _ Hx), Hlg, Hsz, Hsl. reflexivity.
+      * unfold sundo_list; simpl. rewrite delete_insert by (rewrite <- Hsl; exact Hk).
+        rewrite <- Haa, (insert_unit_id _ _ _ Hx), Haa. apply core_eta.
+  - unfold j_append; simpl. destruct (a_al_slots a !! (x, k)) as [u2|] eqn:Hk.
+    + eexists _, _, _. split; [reflexivity|]. split; [reflexivity|].
+      apply (inv_aux a s _ _ [EAlAddr x] HI); try reflexivity.
+      * repeat constructor.
+      * unfold aux, saux; simpl. rewrite <- Hsl, (insert_unit_id _ _ _ Hk), Hlg, Hsz, Haa. reflexivity.
+      * unfold sundo_list; simpl. rewrite delete_insert by (rewrite <- Haa; exact Hx).
+        rewrite <- Hsl, (insert_unit_id _ _ _ Hk), Hsl. apply core_eta.
+    + simpl. eexists _, _, _. split; [reflexivity|]. split; [reflexivity|].
+      apply (inv_aux a s _ _ [EAlAddr x; EAlSlot x k] HI); try reflexivity.
+      * simpl. rewrite <- app_assoc. reflexivity.
+      * repeat constructor.
+      * unfold aux, saux; simpl. rewrite Hlg, Hsz, Haa, Hsl. reflexivity.
+      * unfold sundo_list; simpl.
+        rewrite !delete_insert by (first [rewrite <- Hsl; exact Hk | rewrite <- Haa; exact Hx]). apply core_eta.
+Qed.
+
 (* ---- every operation of the proved core, every sequence, every client ---------------------- *)
 Lemma step_ok_pre a o : step_ok a o = true -> pre_violated a o = false.
 Proof.
@@ -1690,8 +1912,14 @@ Proof.
   - apply simo_sim, sim_HasSuicided; assumption.
   - apply simo_sim, sim_Exist; assumption.
   - apply simo_sim, sim_Empty; assumption.
+  - apply simo_sim, sim_AlAddAddr; assumption.
+  - apply simo_sim, sim_AlAddSlot; assumption.
+  - apply simo_sim, sim_AlHasAddr; assumption.
+  - apply simo_sim, sim_AlHasSlot; assumption.
   - apply sim_Snapshot; assumption.
   - apply sim_Revert; assumption.
+  - apply simo_sim, sim_AddLog; assumption.
+  - apply simo_sim, sim_GetLogs; assumption.
   - apply sim_Finalise; assumption.
   - apply sim_BlockCommit; assumption.
 Qed.
@@ -1731,4 +1959,5 @@ Proof.
   - split; [constructor|]. intros i j r1 r2 H. simpl in H. rewrite lookup_nil in H. done.
   - constructor.
   - intros x o. unfold load, pbal; simpl. rewrite !lookup_empty. simpl. done.
+  - reflexivity.
 Qed.
